@@ -21,11 +21,32 @@ def cstr(s):
     return '"' + s.replace("\\", "\\\\").replace('"', '\\"') + '"'
 
 
+def collision_items():
+    """Two units of different magnitude or dimension must not print the same label: the documented
+    grammar prepends a prefix symbol to the label TEXT, so a prefix applied to a power reads like the
+    power of the prefixed unit (known finding K-6: km^2), and a prefixed symbol can spell another
+    unit's symbol (milli-inches and minutes: min)."""
+    pre = ('#include "au/units/meters.hh"\n#include "au/units/inches.hh"\n#include "au/units/minutes.hh"\n#include "au/units/seconds.hh"\n'
+           "template <class A, class B> constexpr bool same_label() { return auv::streq(au::unit_label(A{}), au::unit_label(B{})); }\n")
+    pairs = [("prefix-of-power", "au::Kilo<decltype(au::squared(au::Meters{}))>", "decltype(au::squared(au::Kilo<au::Meters>{}))", "10^3 m^2 and 10^6 m^2"),
+             ("prefix-of-inverse", "au::Kilo<decltype(au::inverse(au::Seconds{}))>", "decltype(au::inverse(au::Kilo<au::Seconds>{}))", "10^3 / s and 10^-3 / s"),
+             ("prefixed-symbol", "au::Milli<au::Inches>", "au::Minutes", "a length and a time")]
+    items = []
+    for nm, a, b, why in pairs:
+        items.append(witness.Item("collision:" + nm, pre + "static_assert(!au::are_units_quantity_equivalent(%s{}, %s{}) || !(au::detail::DimT<%s>{} == au::detail::DimT<%s>{}), \"different units\");\n"
+                                  "static_assert(!same_label<%s, %s>(), \"two different units print one label\");" % (a, b, a, b, a, b),
+                                  "accept", None, dict(desc="%s and %s (%s) print different labels" % (a, b, why))))
+    return items
+
+
 def itoa_items():
     vals = [0, 1, -1, 9, -9, 10, -10, 99, 100, 101, -99, -100, -101, 999999999, 1000000000, 1000000001, 2 ** 31 - 1, 2 ** 31, -(2 ** 31), 2 ** 32,
             10 ** 18, 10 ** 18 - 1, 10 ** 18 + 1, 2 ** 63 - 1, -(2 ** 63 - 1)]
     uvals = [0, 1, 9, 10, 2 ** 32 - 1, 2 ** 32, 10 ** 19, 10 ** 19 - 1, 2 ** 63, 2 ** 64 - 1, 2 ** 64 - 59]
     lines = []
+    # the most negative value has no literal of its own
+    lines.append("static_assert(auv::streq(au::detail::IToA<INT64_MIN>::value.char_array(), \"-9223372036854775808\") && au::detail::IToA<INT64_MIN>::length == 20, \"IToA<INT64_MIN>\");")
+    lines.append("static_assert(au::detail::string_size(INT64_MIN) == 20 && au::detail::string_size(INT64_MIN + 1) == 20 && au::detail::string_size(INT64_MAX) == 19, \"string_size at the limits\");")
     for v in vals:
         lit = "%dLL" % v
         lines.append("static_assert(auv::streq(au::detail::IToA<%s>::value.char_array(), %s) && au::detail::IToA<%s>::length == %d, \"IToA<%d>\");" % (lit, cstr(str(v)), lit, len(str(v)), v))
@@ -221,7 +242,9 @@ def body(ctx):
           "static_assert(sizeof(au::unit_label(CU1{})) > 10 && au::unit_label(CU1{})[0] == 'E', \"EQUIV label\");"]
     items.append(witness.Item("own:common", "\n".join(cu), "accept", None, dict(desc="common unit labels")))
     exc = extract.Extractor(ctx, prelude=prelude, tag="c18cu")
-    cus = [("au::Meters", "au::Feet"), ("au::Hours", "au::Days"), ("au::Miles", "au::Meters"), ("au::Degrees", "au::Radians")]
+    cus = [("au::Meters", "au::Feet"), ("au::Hours", "au::Days"), ("au::Miles", "au::Meters"), ("au::Degrees", "au::Radians"),
+           # units with different origins: as QUANTITY units their common unit (and its label) ignores the origins
+           ("au::Kelvins", "au::Fahrenheit"), ("au::Celsius", "au::Fahrenheit"), ("au::Fahrenheit", "au::Kelvins")]
     for i, (a, b) in enumerate(cus):
         exc.add("cu_%d" % i, "auv::Text", "auv::text(au::unit_label(au::CommonUnitT<%s, %s>{}))" % (a, b))
     cv = exc.run()
@@ -253,7 +276,7 @@ def body(ctx):
                 ctx.violation("culabel:%s|%s" % (a, b), "label of CommonUnitT<%s, %s> is %r: expected an EQUIV{...} label" % (a, b, text))
                 continue
         ndis += 1
-    items += itoa_items() + random_itoa(rnd, 200 if ctx.thorough else 40)
+    items += itoa_items() + random_itoa(rnd, 200 if ctx.thorough else 40) + collision_items()
     results, stats = witness.judge(ctx, items, configs, prelude=spre, batch=80, tag="c18")
     nbad = witness.report_mismatches(ctx, items, results, prelude=spre)
     ctx.log("W: %d items, %d mismatching" % (len(items), nbad))
@@ -336,7 +359,7 @@ def body(ctx):
     ctx.require(ns[0] >= 100, "only %d streaming wrappers analysed" % ns[0])
     ctx.coverage.update(dict(
         evaluations=nob + len(items) * len(configs) + ns[0], distinct_nontrivial=nob + len(items) + ns[0],
-        rule="label text and sizeof of seeded unit expression trees (labelled and unlabelled atoms, integer / rational / irrational scalings, negative and fractional exponents, prefixes, nested products) extracted from the constant evaluator and compared, up to the order of factors, with the documented grammar; re-asserted on both compilers; own-label rule over every unit-like record of au/units (S) with derived-without-label units; prefix x unit labels; common-unit EQUIV labels; IToA/UIToA on boundary and seeded 64-bit integers; streaming wrappers per (unit, 10 arithmetic reps + char / signed char / unsigned char / wchar_t / char16_t, quantity|point): resolved callee sequence in the IR",
+        rule="label text and sizeof of seeded unit expression trees (labelled and unlabelled atoms, integer / rational / irrational scalings, negative and fractional exponents, prefixes, nested products) extracted from the constant evaluator and compared, up to the order of factors, with the documented grammar; re-asserted on both compilers; own-label rule over every unit-like record of au/units (S) with derived-without-label units; prefix x unit labels; common-unit EQUIV labels (also for units with different origins, whose quantity common unit ignores them); IToA/UIToA on boundary and seeded 64-bit integers; streaming wrappers per (unit, 10 arithmetic reps + char / signed char / unsigned char / wchar_t / char16_t, quantity|point): resolved callee sequence in the IR",
         samples=[dict(tree=cppexpr(ts[0]), model_label=trees.label_text(ts[0], marker))], exhaustive=False,
         trees=len(ts), label_obligations=nob, label_discharged=ndis, unit_like_records=len(recs), marker=marker,
         w_items=len(items), w_mismatches=nbad, streaming_wrappers=ns[0], streaming_ok=ns[1], configs=[c.name for c in configs], engine_stats=stats))
